@@ -1,6 +1,6 @@
 #!/bin/bash
 # tools/try_patch.sh <patch-file> <check args...> : apply patch to /repo, run ./check, always revert.
-P=$1; shift
+P=$(realpath "$1"); shift
 cd /verif
 git -C /repo apply "$P" || { echo "patch does not apply"; exit 2; }
 trap 'git -C /repo checkout -- . ' EXIT
